@@ -9,7 +9,7 @@
    Deferred fires" is built into this model and tied to the code by the
    correspondence check (real Deferreds, real inlineCallbacks over a virtual
    reactor).  Executable definitions only. *)
-From TT Require Import Lib.Base Gen.Spinnertabs.
+From TT Require Import Lib.Base Model.Reactor Gen.Spinnertabs.
 
 Definition time := nat.
 
@@ -175,9 +175,11 @@ Definition no_observers (l : list nat) : list nat * list undo :=
 (* _TwistedLogObservers([x])._setUp *)
 Definition with_observer (x : nat) (l : list nat) : list nat * list undo := (add_obs x l, [URemove x]).
 
-Definition capture_obs := 4001.       (* CaptureTwistedLogs' FileLogObserver.emit *)
-Definition error_obs := 4002.         (* _log_observer.gotEvent *)
-Definition initial_observers (p : program) : list nat := seq 0 (S (i_nobs p)).
+(* observers are objects: the two the runner installs are distinct from each other and from every
+   observer that was there before (ids 2 ..: the process's own sink and i_nobs extra ones) *)
+Definition capture_obs := 0.          (* CaptureTwistedLogs' FileLogObserver.emit *)
+Definition error_obs := 1.            (* _log_observer.gotEvent *)
+Definition initial_observers (p : program) : list nat := seq 2 (S (i_nobs p)).
 
 (* the observers while the test runs, and after both `with` blocks of _run_core were left *)
 Definition observers_during (p : program) : list nat :=
@@ -222,6 +224,17 @@ Definition junk_of (p : program) (m : sim) : list time :=
 Definition dirty (p : program) (m : sim) : bool :=
   match junk_of p m with [] => Nat.ltb 0 (m_pollers m) | _ :: _ => true end.
 
+(* what reactor.getDelayedCalls() returns when Spinner._clean looks (after the obligatory iterations):
+   the leftovers that have not run (action false) and the scheduled instance of every poller (action
+   true; its instant is some instant not before now and is never observed) *)
+Definition final_queue (p : program) (m : sim) : list (dcall bool) :=
+  let cs := map (fun t => (t, false)) (junk_of p m) ++ repeat (m_now m, true) (m_pollers m) in
+  map (fun kc => mkCall (fst (snd kc)) (fst kc) (snd (snd kc))) (combine (seq 0 (length cs)) cs).
+(* _spinner.py:235-237: for delayed_call in reactor.getDelayedCalls(): delayed_call.cancel() - over a FRESH
+   list, each call taken out of the reactor's own queue *)
+Definition spinner_clean (q : list (dcall bool)) : list (dcall bool) :=
+  fold_left (fun q' c => remove_seq (dc_seq c) q') q q.
+
 Definition claimed (c : cls) : bool := match c with CKbd => false | _ => true end.
 (* runtest.py:108-117: the last caught exception, unless an earlier one is claimed by no handler *)
 Definition pick (excs : list cls) : option cls :=
@@ -248,7 +261,7 @@ Definition finish (p : program) (ok : bool) (unhandled : nat) (stop : bool) (nle
         (match pick excs with Some CKbd => Some CKbd | _ => None end)
         (m_log m)
         (length junk)
-        0                                  (* _clean cancelled every delayed call it found *)
+        (length (spinner_clean (final_queue p m)))   (* what _clean left in the reactor *)
         (observers_after p)
         nleft.
 
